@@ -318,7 +318,15 @@ async fn run_case(case: &Case) -> CaseOut {
                 rig.advance(*ms as u64).await;
                 elapsed_since_tx += *ms as u64;
                 if task_live && !link_task && elapsed_since_tx > TIMEOUT {
-                    task_over = Some(false);
+                    // the statement says nothing about deadlines (C01 bounds them): a request that is still outstanding
+                    // now - its timer was extended by whatever arrived - may yet be completed by its answer
+                    let resolved = pending.as_ref().map(|p| !p.outcomes().is_empty());
+                    if resolved == Some(false) {
+                        poisoned = true;
+                        out.label("request_outlives_nominal_timeout");
+                    } else {
+                        task_over = Some(false);
+                    }
                 } else if task_live && elapsed_since_tx == TIMEOUT {
                     poisoned = true; // deadline instant: not judged
                 }
@@ -516,6 +524,10 @@ async fn run_case(case: &Case) -> CaseOut {
                     }
                 } else if poisoned {
                     forbid_any_confirm = false;
+                    if task_live && planned > 0 && effect >= 3 {
+                        // an acceptable form of the awaited fragment while it is open whether the request still waits
+                        maybe_extra_ok = true;
+                    }
                 }
                 if src != OUT_A {
                     // a response of another outstation is never confirmed on behalf of this task
@@ -712,6 +724,15 @@ async fn run_case(case: &Case) -> CaseOut {
 
     // --- let the task time out if it is still waiting, then judge the outcome ---
     rig.advance(TIMEOUT + 1).await;
+    if let Some(p) = &pending {
+        // (a deadline that was extended on the way is still a deadline: C01 bounds it, not this statement)
+        for _ in 0..3 {
+            if !p.outcomes().is_empty() {
+                break;
+            }
+            rig.advance(TIMEOUT + 1).await;
+        }
+    }
     let _ = rig.take_tx();
     if let Some(p) = &pending {
         let res = p.outcomes();
